@@ -643,6 +643,8 @@ class ObjectMethod(DeserializationMethod):
                 field_errors = set_child_error(field_errors, field.alias, error)
         if self.aggregate_fields:
             remain = data.keys() - self.all_aliases
+            # the discriminator key has been consumed by the union dispatch
+            remain.discard(discriminator)
             for flattened_field in self.flattened_fields:
                 flattened: dict = {
                     alias: data[alias]
